@@ -98,17 +98,6 @@ Definition sort_paths (l : list (bytes * lrec)) : list (bytes * lrec) := fold_ri
 Definition ref_walk (snap : list (bytes * lrec)) : list stat :=
   map (fun e => spec_stat snap (fst e) (snd e)) (sort_paths snap).
 
-(* declarative prefixing of a sub-walk entry by the name of its sub-root *)
-Definition prefix_stat (d : bytes) (st : stat) : stat :=
-  let st1 := set_path st (d ++ sep :: st_path st) in
-  match st_linkname st with
-  | [] => st1
-  | ln =>
-    if mode_is_symlink (st_mode st) then
-      (if is_abs ln then set_linkname st1 (clean (sep :: d ++ sep :: ln)) else st1)
-    else set_linkname st1 (d ++ sep :: ln)
-  end.
-
 Definition dec_sd_in (s : sx) : option stat :=
   match s with SL [st; _; _] => dec_stat st | _ => None end.
 
